@@ -7,6 +7,10 @@ import Mahotas.Proofs.C07Order
 import Mahotas.Proofs.C07Erode
 import Mahotas.Proofs.C07Wrap
 import Mahotas.Proofs.C07Dilate
+import Mahotas.Proofs.C07Currank
+import Mahotas.Proofs.C07Float
+import Mahotas.Proofs.C07Defined
+import Mahotas.Proofs.C07Majority
 import Mahotas.Properties.C01
 import Mathlib.Algebra.Order.Field.Basic
 import Mathlib.Algebra.Order.Field.Rat
@@ -539,3 +543,135 @@ theorem C07_mode_codes_agree (m : Mahotas.Mode) :
 
 /-- non-vacuity: `reflect` is mode 2 in both tables -/
 example : Mahotas.Generated.pyModes.lookup (Mahotas.Mode.reflect).name = some 2 := by decide
+
+/-! ## Round 4: `currank` in binary64, pixels without a sample, float `template_match`, `majority_filter` -/
+
+/-- **C07-R4a (the rescaled rank, as the C++ computes it in double, is the exact floor).**
+`rank_filter` computes `currank = npy_intp(n * rank / double(N2))`: the 64-bit integer product `n·rank` and `N2` are
+converted to double, divided there, and the quotient is truncated. For EVERY round-to-nearest arithmetic with a 53-bit
+significand (`Rounding rnd`: monotone, relative error `≤ 2^-53`, exact on integers up to `2^53` — IEEE binary64
+`roundTiesToEven` is `rne53`, second part) and all sizes that occur (`n ≤ N2` gathered samples, `rank < N2`,
+fewer than `2^26` members) the generic definition `curRankG` — which the driver runs with binary64 operations
+(`floatRankOps`) and prints as `dmodel=` — instantiated with the rounded rational operations equals `curRank`, the
+`Nat` division `⌊n·rank / N2⌋` the model and all other C07 theorems use. Hence the whole filter: `rankAtG = rankAt`. -/
+theorem C07_currank_double_eq_floor (rnd : ℚ → ℚ) (hr : Mahotas.C05.Rounding rnd) :
+    (∀ n N2 rank : ℕ, n ≤ N2 → rank < N2 → N2 < 2 ^ 26 →
+      curRankG (ratRankOps rnd) n N2 rank = curRank n N2 rank) ∧
+    (∀ (m : Mode) (f : Img Int) (fp : List (List Int)) (rank : Int) (p : List Int), fp.length < 2 ^ 26 →
+      rankAtG (ratRankOps rnd) m f fp rank p = rankAt m f fp rank p) := by
+  refine ⟨fun n N2 rank hn hrank hsz => curRankG_small rnd hr n N2 rank hn hrank hsz, ?_⟩
+  intro m f fp rank p hsz
+  unfold rankAtG rankAt
+  by_cases h : rank < 0 ∨ rank ≥ (fp.length : Int)
+  · rw [if_pos h, if_pos h]
+  · rw [if_neg h, if_neg h]
+    simp only
+    rw [curRankG_small rnd hr _ _ _ (gather_length_le m f fp p) (by omega) hsz]
+
+/-- binary64 `roundTiesToEven` is such an arithmetic, exact arithmetic another; `⌊3·2/5⌋ = 1` at a corner pixel -/
+example : (∀ n N2 rank : ℕ, n ≤ N2 → rank < N2 → N2 < 2 ^ 26 →
+      curRankG (ratRankOps Mahotas.C05.rne53) n N2 rank = curRank n N2 rank) ∧ curRank 3 5 2 = 1 :=
+  ⟨(C07_currank_double_eq_floor _ Mahotas.C05.rne53_rounding).1, by decide⟩
+
+/-- **C07-R4b (pixels without a sample: `ignore` mode and an all-outside neighbourhood).** For a rank inside `[0, N2)`
+and offsets of the image's rank: the model of `rank_filter` is undefined at `p` (`none`: the C++ calls `nth_element` on
+an empty range and stores `neighbours[0]`, a value left over from the previous pixel — nothing the statement or the
+`nth_element` contract fixes) **iff** the mode is `ignore` and every member of the neighbourhood placed at `p` falls
+outside the image; `mean_filter` divides by `n = 0` (NaN) in exactly the same case. In the five other modes, and
+whenever some member lands inside (e.g. the centre is a member and `p` is a pixel), the value exists and is the
+`k`-th smallest sample (`C07_rank_is_kth_smallest`). -/
+theorem C07_no_sample_iff (m : Mode) (f : Img Int) (fp : List (List Int)) (rank : Int) (p : List Int)
+    (h0 : 0 ≤ rank) (h1 : rank < fp.length) (hlen : ∀ k ∈ fp, (addPos p k).length = f.shape.length) :
+    (rankAt m f fp rank p = none ↔ (m = .ignore ∧ ∀ k ∈ fp, inside f.shape (addPos p k) = false)) ∧
+    ((meanParts m f fp p).2 = 0 ↔ (m = .ignore ∧ ∀ k ∈ fp, inside f.shape (addPos p k) = false)) ∧
+    ((m ≠ .ignore ∨ ∃ k ∈ fp, inside f.shape (addPos p k) = true) → ∃ v, rankAt m f fp rank p = some v) := by
+  have hne : fp ≠ [] := by
+    intro h; rw [h] at h1; simp at h1; omega
+  have hg := gather_eq_nil_iff m f fp p hlen
+  have hg' : gather m f fp p = [] ↔ (m = .ignore ∧ ∀ k ∈ fp, inside f.shape (addPos p k) = false) := by
+    rw [hg]; constructor
+    · rintro (h | h); exact absurd h hne; exact h
+    · exact Or.inr
+  have hr := rankAt_none_iff_gather m f fp rank p h0 h1
+  refine ⟨hr.trans hg', ?_, ?_⟩
+  · unfold meanParts
+    simp only
+    rw [List.length_eq_zero_iff]; exact hg'
+  · intro h
+    cases hv : rankAt m f fp rank p with
+    | some v => exact ⟨v, rfl⟩
+    | none =>
+      exfalso
+      obtain ⟨hm, hall⟩ := (hr.trans hg').1 hv
+      rcases h with h | ⟨k, hk, hin⟩
+      · exact h hm
+      · rw [hall k hk] at hin; cases hin
+
+/-- non-vacuity: the two horizontal neighbours (centre not a member) on a 1×1 image: no sample in `ignore` mode —
+    undefined rank (by the theorem), zero count —, two samples in `reflect` mode -/
+example :
+    let f : Img Int := { shape := [1, 1], data := #[7] }
+    let fp := footprint [1, 3] #[1, 0, 1]
+    fp = [[0, -1], [0, 1]] ∧ rankAt .ignore f fp 1 [0, 0] = none ∧ meanParts .ignore f fp [0, 0] = (0, 0) ∧
+    rankAt .reflect f fp 1 [0, 0] = some 7 ∧ meanParts .reflect f fp [0, 0] = (14, 2) := by
+  intro f fp
+  have hfp : fp = [[0, -1], [0, 1]] := by decide
+  refine ⟨hfp, ?_, by decide, ?_, by decide⟩
+  · exact (C07_no_sample_iff .ignore f fp 1 [0, 0] (by decide) (by decide) (by decide)).1.2 ⟨rfl, by decide⟩
+  · rw [C07_rank_eq_spec _ _ (by decide)]
+    decide
+
+/-- **C07-R4c (`template_match` generic in the arithmetic of `T`; float images with integer values are exact).**
+`tmAtG` is `template_match<T>` written once for every `T` (`T diff2 = 0; delta = val > tj ? val − tj : tj − val;
+diff2 += delta*delta`); the driver runs it with binary64 and binary32 operations for float images (kind `tmf`, compared
+bit for bit with the real output on arbitrary finite values). (1) With the integer operations it IS the exact model of
+rounds 1–3 (`tmAtG intTmOps = tmAt`, so `C07_template_match_ssd` and the wrapping theorems speak about an instance of it).
+(2) With rounded rational operations `rnd (a ∘ b)`, for every round-to-nearest `rnd` of 53 bits (`Rounding rnd`), on an
+integer-valued image and template whose exact sum of squared differences at `p` is at most `2^53`, no operation rounds:
+the result is the exact value of the specification `tmSpecAt` (this is the case on which the harness compares float
+images with the specification exactly). -/
+theorem C07_template_match_float_exact (m : Mode) (f : Img Int) (tshape : List Nat) (t : Array Int) (p : List Int) :
+    tmAtG intTmOps m f tshape t p = tmAt m f tshape t p ∧
+    ∀ (rnd : ℚ → ℚ), Mahotas.C05.Rounding rnd → (∀ d ∈ f.shape, 0 < d) → tmSpecAt m f tshape t p ≤ 2 ^ 53 →
+      tmAtG (ratTmOps rnd) m (castImg f) tshape (castArr t) p = ((tmSpecAt m f tshape t p : ℤ) : ℚ) := by
+  refine ⟨tmAtG_int m f tshape t p, fun rnd hr hs hb => ?_⟩
+  rw [← C07_template_match_ssd m f hs tshape t p] at hb ⊢
+  exact tmAtG_rat_exact rnd hr m f tshape t p hb
+
+/-- non-vacuity: binary64 rounding, the 2×2 image of the earlier examples: SSD 40 at the corner, below `2^53` -/
+example :
+    let f : Img Int := { shape := [2, 2], data := #[7, 1, 5, 3] }
+    tmAtG (ratTmOps Mahotas.C05.rne53) .nearest (castImg f) [1, 2] (castArr #[1, 5]) [0, 0] = 40 := by
+  intro f
+  have h := (C07_template_match_float_exact .nearest f [1, 2] #[1, 5] [0, 0]).2 _ Mahotas.C05.rne53_rounding
+    (by decide) (by decide)
+  rw [h]
+  have : tmSpecAt .nearest f [1, 2] #[1, 5] [0, 0] = 40 := by decide
+  rw [this]; norm_num
+
+/-- **C07-R4d (`majority_filter`, closed form of the loops).** For a 2-D image `rows × cols` and window size `N` (the
+wrapper replaces an even `N` by `N + 1`, `majorityN`), `py_majority_filter` — output cleared, nothing done when
+`rows < N` or `cols < N`, otherwise `for (y = 0; y != rows−N; ++y) for (x = 0; x != cols−N; ++x)` — sets pixel `(Y, X)`
+**iff** the `N × N` window centred on it (top-left corner `(Y − N/2, X − N/2)`) lies inside the image, is NOT the last
+such window of its column or row (`Y − N/2 + N < rows`, strictly — the loops stop one short of the window flush with the
+bottom/right edge), and holds at least `⌊N²/2⌋` set pixels (for `N = 3`: 4 of 9 suffice; a window never counts more
+than `N²`). `majoritySpecB` is the executable form of the right-hand side the driver prints. (Observation for the report: the
+docstring's "majority … in the square centred on (y,x)" would be `count > N²/2` on every window inside the image; the
+function is outside the fixed statement of C07, so this is modelled as it is.) -/
+theorem C07_majority_closed_form (f : Img Int) (rows cols N Y X : Nat) (hf : f.shape = [rows, cols]) :
+    ((Y, X) ∈ majorityMarks f N ↔
+      (N / 2 ≤ Y ∧ Y - N / 2 + N < rows ∧ N / 2 ≤ X ∧ X - N / 2 + N < cols ∧
+        N * N / 2 ≤ windowCount f N (Y - N / 2) (X - N / 2))) ∧
+    ((Y, X) ∈ majorityMarks f N ↔ majoritySpecB f N Y X = true) ∧
+    windowCount f N (Y - N / 2) (X - N / 2) ≤ N * N :=
+  ⟨mem_majorityMarks f rows cols N Y X hf,
+   (mem_majorityMarks f rows cols N Y X hf).trans (majoritySpecB_iff f rows cols N Y X hf).symm,
+   windowCount_le f N _ _⟩
+
+/-- non-vacuity: a 5×5 image, `N = 3`: the window at the top-left holds 4 of 9 set pixels and is marked at its centre
+    `(1,1)`; the window flush with the bottom-right corner (8 of 9 set, centre `(3,3)`) is not evaluated; `N = 4` becomes 5 -/
+example :
+    let f : Img Int := { shape := [5, 5], data := #[1,1,0,0,0, 1,1,0,0,0, 0,0,0,1,1, 0,0,1,1,1, 0,0,1,1,1] }
+    majorityMarks f 3 = [(1, 1), (2, 2)] ∧ windowCount f 3 0 0 = 4 ∧ windowCount f 3 2 2 = 8 ∧
+    majoritySpecB f 3 3 3 = false ∧ majorityN 4 = 5 ∧ majorityMarks f 5 = [] := by
+  decide
